@@ -264,3 +264,47 @@ def rf19e(run):
                               'for a memory operand whose base is %s and whose index is %s MIR_finish_func raises %s; it must raise %s '
                               '(address registers are integer registers)' % (bn, xn, got or 'nothing', exp or 'nothing'), line=region['line'])
     return n
+
+
+# ---------------------------------------------------------------------------------------------
+# RF94: only opcodes without a fixed operand list are exempt from the operand-count check
+# ---------------------------------------------------------------------------------------------
+
+def rf94(run):
+    rule = 'RF94'
+    run.rule(rule, 'MIR_new_insn_arr: the test that reports MIR_ops_num_error (nops != expected) is skipped, by evaluation of its guard over '
+                   'all opcodes (helper predicates inlined), only for opcodes whose insn_descs row has no fixed operand list; every opcode '
+                   'with a fixed arity - JRET has exactly one operand - is counted')
+    tu = run.tu('mir')
+    f = tu.func('MIR_new_insn_arr')
+    run.functions_analysed.add(('mir', f.name))
+    g, rows = read_insn_descs(tu)
+    fixed = {r['code']: len(r['modes']) for r in rows}
+    preds = EF.Predicates(tu)
+    codes = dict(tu.enum('MIR_insn_code_t'))
+    guard = None
+    for x in f.walk():
+        if x['k'] == 'IfStmt' and 'expected_nops' in F.src(x['c'][0]) and any(AI.is_error_call(y) for y in F.walk(x['c'][1]) if y['k'] == 'CallExpr'):
+            guard = x
+            break
+    if guard is None:
+        raise F.AnalysisBroken('MIR_new_insn_arr: the operand-count test was not found')
+    n = 0
+    for nm, v in sorted(codes.items(), key=lambda kv: kv[1]):
+        if nm in ('MIR_INSN_BOUND', 'MIR_INVALID_INSN') or nm not in fixed:
+            continue
+        # with a wrong count (nops = expected + 1) the test must fire for every opcode that has a fixed list
+        env = {'code': v, 'nops': fixed[nm] + 1, 'expected_nops': fixed[nm]}
+        r = preds.eval(guard['c'][0], env, frozenset())
+        if r is None:
+            raise F.AnalysisBroken('MIR_new_insn_arr: count test not evaluable for %s' % nm)
+        n += 1
+        variable = fixed[nm] == 0
+        ok = bool(r) or variable
+        run.ob(rule, (nm,), ok, {'opcode': nm, 'operands in insn_descs': fixed[nm], 'count test fires for a wrong count': bool(r)}
+               if nm in ('MIR_JRET', 'MIR_RET', 'MIR_MOV') or not ok else None)
+        if not ok:
+            run.violation(rule, f, 'operand count of %s not checked' % nm, '%s has %d operand(s) in insn_descs, but the operand-count test of '
+                          'MIR_new_insn_arr does not fire for it: an instruction with the wrong number of operands is created instead of '
+                          'raising MIR_ops_num_error' % (nm, fixed[nm]), line=guard['l'])
+    return n
